@@ -124,6 +124,9 @@ def pool():
         ("import", "z", None, ("func", "fA")),
         ("export", acc(p, "f"), None),
         ("export", acc(p, "g"), None),
+        # several named arguments, a later one instantiating another package (discovery must look at all of them)
+        ("let", "c", new(C, named("f", f), named("ns:p/i", i, True), named("k", acc(new("wm", inf("i")), "k")))),
+        ("let", "c", new(C, named("k", acc(new("wm", named("i", acc(new(P), "i"))), "k")), named("f", acc(new(P), "f")), FILL)),
     ]
     return s
 
